@@ -32,6 +32,44 @@ def _rel(op: str):
     return None
 
 
+def _arm_rules(stmts: List[ast.stmt], op: str):
+    """ordered (guard, result, line) rules of one operator arm, written either as `if g: return r` statements or as an
+    if/elif chain that assigns a result variable (`v = r`; `v = None` = no fold)"""
+    def result_of(body):
+        if len(body) == 1 and isinstance(body[0], ast.Return):
+            return body[0].value
+        if len(body) == 1 and isinstance(body[0], ast.Assign) and isinstance(body[0].targets[0], ast.Name):
+            return body[0].value
+        return "?"
+
+    rules = []
+    for st in stmts:
+        if isinstance(st, ast.Expr) and isinstance(st.value, ast.Constant):
+            continue
+        if isinstance(st, (ast.Assign, ast.Pass)) and (isinstance(st, ast.Pass) or (isinstance(st.value, ast.Constant) and st.value.value is None)):
+            continue
+        if not isinstance(st, ast.If):
+            raise AnalysisError(f"_minimize_expr/{op}: unrecognised statement at line {st.lineno}")
+        cur: Optional[ast.If] = st
+        while cur is not None:
+            r = result_of(cur.body)
+            if r == "?":
+                raise AnalysisError(f"_minimize_expr/{op}: unrecognised arm body at line {cur.lineno}")
+            if not (isinstance(r, ast.Constant) and r.value is None):
+                rules.append((cur.test, r, cur.lineno))
+            if len(cur.orelse) == 1 and isinstance(cur.orelse[0], ast.If):
+                cur = cur.orelse[0]
+            else:
+                if cur.orelse:
+                    r2 = result_of(cur.orelse)
+                    if r2 == "?":
+                        raise AnalysisError(f"_minimize_expr/{op}: unrecognised else body at line {cur.lineno}")
+                    if not (isinstance(r2, ast.Constant) and r2.value is None):
+                        rules.append((ast.Constant(True), r2, cur.lineno))
+                cur = None
+    return rules
+
+
 def r20_1(ctx):
     """R20.1 folding rules are sound: for AND/OR/NOT and the relation arms of _minimize_expr, every (guard -> result) rule
     returns a value equal to the operator applied to the operands for every valuation of the free operands (relation
@@ -41,9 +79,10 @@ def r20_1(ctx):
     ctx.analysed(f.qual)
     consts = {"y": "y", "n": "n"}
     # locate the operator chain: if expr[0] == kconfiglib.AND: ... elif ... OR ... EQUAL ... UNEQUAL ... else
+    from .common import expand_locals
     chain = None
     for n in ast.walk(f.node):
-        if isinstance(n, ast.If) and ast.unparse(n.test).endswith("expr[0] == kconfiglib.AND"):
+        if isinstance(n, ast.If) and expand_locals(f.node, n.test).endswith("expr[0] == kconfiglib.AND"):
             chain = n
     if chain is None:
         raise AnchorError("_minimize_expr: operator chain not found")
@@ -61,7 +100,7 @@ def r20_1(ctx):
     cur: Optional[ast.If] = chain
     else_body: List[ast.stmt] = []
     while cur is not None:
-        t = ast.unparse(cur.test)
+        t = expand_locals(f.node, cur.test)
         op = t.split("kconfiglib.")[-1]
         arms[op] = cur.body
         if len(cur.orelse) == 1 and isinstance(cur.orelse[0], ast.If):
@@ -74,14 +113,7 @@ def r20_1(ctx):
         if op not in arms:
             ctx.bad(f"_minimize_expr/{op} arm", "arm not found", f.loc(chain))
             continue
-        rules = []
-        for st in arms[op]:
-            if isinstance(st, ast.If) and len(st.body) == 1 and isinstance(st.body[0], ast.Return) and not st.orelse:
-                rules.append((st.test, st.body[0].value, st.lineno))
-            elif isinstance(st, ast.Expr) and isinstance(st.value, ast.Constant):
-                continue
-            else:
-                raise AnalysisError(f"_minimize_expr/{op}: unrecognised statement at line {st.lineno}")
+        rules = _arm_rules(arms[op], op)
         rules.append((None, final, final.lineno))
         construct = f"_minimize_expr/{op} folding rules sound"
         if op in ("AND", "OR"):
